@@ -1,5 +1,6 @@
 """C18 - uniform and layered tracers reduce to image geometry and the one-medium tracer."""
 from pyvc.spec import *
+import numpy as np
 
 UT = "pyrex.ray_tracing.UniformRayTracer"
 C = 299792458
@@ -263,3 +264,60 @@ def matching_ray_tracer_dispatch():
     prove("antarctic", tr._get_matching_ray_tracer(new("pyrex.ice_model.AntarcticIce")) is S)
     prove("greenland-by-inheritance", tr._get_matching_ray_tracer(new("pyrex.ice_model.GreenlandIce")) is S)
     prove("anything-else-default", tr._get_matching_ray_tracer(obj("pyrex.earth_model.PREM")) is B)
+
+
+# ---------------------------------------------------------------------------
+# chain assembly inside LayeredRayTracer.solutions (mechanically extracted block)
+# ---------------------------------------------------------------------------
+
+class _Layer:
+    def __init__(self, tag):
+        self.tag = tag
+
+
+@harness(clause="layered-chain-assembly", label="B")
+def solutions_assemble_a_continuous_chain():
+    """the statement block of LayeredRayTracer.solutions from `drs, angles = self._trace_path(...)` to the
+    construction of `sub_paths` is extracted from the current source and run on symbolic data: consecutive
+    single-layer paths share their end points, start at the source, end at the receiver, and the joint between
+    group k and k+1 lies at the depth where group k ends (a group of two sections turns over inside its layer)"""
+    block = extract_block("pyrex.custom.layered_ice.ray_tracing.LayeredRayTracer.solutions",
+                          "drs, angles = self._trace_path(", "sub_paths = [",
+                          ["self", "launch_angle", "path_zs", "grouped_path", "group_models"])
+    for grouped in ([[1], [0]], [[1, 1], [0]], [[2], [1, 1], [0]], [[0, 0]]):
+        n_groups = len(grouped)
+        n_sections = sum(len(g) for g in grouped)
+        tag = "groups=%s" % (grouped,)
+        p0 = vec("from")
+        p1 = vec("to")
+        tr = obj(LT, from_point=p0, to_point=p1)
+        phi = real("phi")
+        tr._lazy_phi = phi
+        zs = [real("z_%d" % i) for i in range(n_sections + 1)]
+        drs = [real("dr_%d" % i) for i in range(n_groups)]
+        angs = [real("angle_%d" % i) for i in range(n_groups)]
+        models = [_Layer(i) for i in range(n_groups)]
+        use_stub("pyrex.custom.layered_ice.ray_tracing.LayeredRayTracer._trace_path",
+                 lambda self, angle, depths, gp, gm: (list(drs), list(angs)))
+        built = []
+
+        def build(self, ice_layer, from_point, to_point, theta0, direct):
+            built.append((ice_layer, from_point, to_point, theta0, direct))
+            return ("sub-path", len(built))
+        use_stub("pyrex.custom.layered_ice.ray_tracing.LayeredRayTracer._build_path_at_layer", build)
+        out = block(tr, real("launch_angle"), np.array(zs), grouped, models)
+        prove(tag + ":one-sub-path-per-group", And(len(built) == n_groups, len(out["sub_paths"]) == n_groups))
+        prove(tag + ":starts-at-the-source", eq(built[0][1], p0))
+        prove(tag + ":ends-at-the-receiver", eq(built[-1][2], p1))
+        cum = 0
+        r_cum = 0
+        for k in range(n_groups):
+            cum += len(grouped[k])
+            r_cum = r_cum + drs[k]
+            prove(tag + ":group-%d-model-angle-and-kind" % k, And(built[k][0] is models[k], built[k][3] is angs[k],
+                                                                   built[k][4] == (len(grouped[k]) == 1)))
+            if k < n_groups - 1:
+                prove(tag + ":chain-continuous-at-joint-%d" % k, eq(built[k][2], built[k + 1][1]))
+                prove(tag + ":joint-%d-at-the-depth-where-the-group-ends" % k, eq(built[k][2][2], zs[cum]))
+                prove(tag + ":joint-%d-horizontal-position" % k, And(eq(built[k][2][0], p0[0] + r_cum * cos(phi)),
+                                                                     eq(built[k][2][1], p0[1] + r_cum * sin(phi))))
